@@ -44,6 +44,7 @@ def run(ctx, R):
     R.rule("r2", "each sibling: outcome assertion per yielded item, nothing-lost assertion, order assertion")
     R.rule("r3", "probe contexts: no active vertex, distinct order tag")
     skipped_items(ctx, R)
+    probe_query_shape(ctx, R)
     top = C.fn(MOD + "check_adapter_invariants")
     if top is None:
         R.fail("r1", "anchor", "-", "check_adapter_invariants not found")
@@ -177,6 +178,32 @@ def run(ctx, R):
     reads = [x for x in walk(gv["body"]) if x.get("k") == "field" and x["name"] == "values"]
     R.check(bool(reads) and any(c.get("name") == "last" for c in calls_in(gv["body"])), "r3", "order-tag-read-back", C.loc(gv["sp"]),
             "get_context_order_values must read the tag pushed by make_contexts")
+
+
+# ---- r5: the probe queries enumerate what they must -------------------------------------------------------------------
+def probe_query_shape(ctx, R):
+    """Every vertex type has the implicit property `__typename`, so the property checker must visit *every* vertex type, also
+    one that declares no property. Its probe query walks VertexType -> property; a plain (mandatory) edge there drops the
+    types without properties before the checker sees them. The edge must be @fold (or @optional)."""
+    import re
+    C = ctx.core
+    H = "trustfall_core::interpreter::helpers::correctness::"
+    R.rule("r5", "the property checker's probe query reaches every vertex type (`property` is folded / optional), and adds __typename for each")
+    f = C.fn(H + "check_properties_are_implemented")
+    if f is None:
+        R.fail("r5", "anchor", "-", "check_properties_are_implemented not found")
+        return
+    q = next((n["v"] for n in walk(f["body"]) if n.get("k") == "lit" and isinstance(n.get("v"), str) and "VertexType" in n["v"]), None)
+    if q is None:
+        R.fail("r5", "anchor:query", C.loc(f["sp"]), "the probe query of check_properties_are_implemented was not found")
+        return
+    m = re.search(r"\bproperty\b((?:\s*@\w+(?:\([^)]*\))?)*)\s*\{", q)
+    dirs = re.findall(r"@(\w+)", m.group(1)) if m else None
+    R.check(m is not None and ("fold" in dirs or "optional" in dirs), "r5", "properties-probe/every-type", C.loc(f["sp"]),
+            "the probe query selects `property%s {` under VertexType: a vertex type that declares no property yields no row, so its "
+            "implicit `__typename` is never passed to resolve_property and violations on it go unnoticed" % (m.group(1) if m else " ?"))
+    has_typename = any(n.get("k") == "lit" and n.get("v") == "__typename" for n in walk(f["body"]))
+    R.check(has_typename, "r5", "properties-probe/__typename", C.loc(f["sp"]), "the property checker no longer probes the implicit __typename property")
 
 
 # ---- r4: what the checkers skip ---------------------------------------------------------------------------------------
